@@ -77,6 +77,10 @@ RULES = [
      re.compile(r'RoaringBitmap::from_sorted_iter\((\w+)\)\.unwrap\(\)'), r'RoaringBitmap::from_sorted_vec_unwrap_(\1)'),
     ('R6e', '`for _ in A..B {` -> `let mut cnt__ = A; while cnt__ < B { cnt__ += 1;` (counting loop without a loop variable; gives the invariant a name for the progress)',
      re.compile(r'for _ in (\w+)\.\.(\w+) \{'), r'let mut cnt__ = \1; while cnt__ < \2 { cnt__ += 1;'),
+    ('R6f', '`for x in A..=B {` -> `let mut cnti__: u64 = A as u64; while cnti__ <= B as u64 { let x = cnti__ as _; cnti__ += 1;` (inclusive counting loop, counter widened so that the last value does not overflow)',
+     re.compile(r'for (\w+) in (\w+)\.\.=([\w:]+) \{'), r'let mut cnti__: u64 = \2 as u64; while cnti__ <= \3 as u64 { let \1 = cnti__ as _; cnti__ += 1;'),
+    ('R6g', '`for x in A..B {` -> `let mut cnti__: u64 = A as u64; while cnti__ < B as u64 { let x = cnti__ as _; cnti__ += 1;` (exclusive counting loop, same counter name as R6f)',
+     re.compile(r'for ([a-z]\w*) in (\w+)\.\.([\w:]+) \{'), r'let mut cnti__: u64 = \2 as u64; while cnti__ < \3 as u64 { let \1 = cnti__ as _; cnti__ += 1;'),
     ('R7b', 'X.map(Some) -> X.map_some_()', re.compile(r'\.map\(Some\)'), '.map_some_()'),
     # (R2 retired: heed's remap_* type-state is modelled natively by DatabaseG<DC: DataCodec>)
     ('R2', 'NodeCodec<D> -> NodeCodec (codec marker of the uninterpreted metric)', re.compile(r'\bNodeCodec<(?:D|ND)>'), 'NodeCodec'),
@@ -238,6 +242,7 @@ class Block:
         self.noglobal = []
         self.optional = False
         self.stub = False
+        self.item = False
 
 
 def parse_template(path, units_dir):
@@ -259,6 +264,29 @@ def parse_template(path, units_dir):
             inc = os.path.join(units_dir, ln[len('//@include '):].strip())
             parts.extend(parse_template(inc, units_dir))
             i += 1
+        elif ln.startswith('//@extract-item '):
+            flush()
+            f, rx = [x.strip() for x in ln.split(' ', 1)[1].split('|', 1)]
+            b = Block(f, None, rx)
+            b.item = True
+            i += 1
+            while not lines[i].startswith('//@end'):
+                if lines[i].startswith('//@subst'):
+                    m = re.search(r'count=(\d+|any)', lines[i])
+                    cnt = (0 if m.group(1) == 'any' else int(m.group(1))) if m else 1
+                    i += 2
+                    old, new, tgt = [], [], None
+                    tgt = old
+                    while lines[i].strip() != '>>>':
+                        if lines[i].strip() == '===':
+                            tgt = new
+                        else:
+                            tgt.append(lines[i])
+                        i += 1
+                    b.substs.append(('\n'.join(old), '\n'.join(new), cnt))
+                i += 1
+            i += 1
+            parts.append(('block', b))
         elif ln.startswith('//@extract ') or ln.startswith('//@extract-optional '):
             flush()
             optional = ln.startswith('//@extract-optional ')
@@ -364,7 +392,61 @@ def _sig_rewrite(text, masked, fn_kw, body_open, spec_lines, new_name, old_name)
     return sig
 
 
+def extract_item(b: Block, snapshot: str):
+    path = os.path.join(snapshot, b.file)
+    if not os.path.exists(path):
+        raise ExtractError('lost anchor: file %s' % b.file)
+    src = open(path).read()
+    masked = rustlex.mask(src)
+    m = re.search(b.fn, masked)
+    if not m:
+        raise ExtractError('lost anchor: item /%s/ in %s' % (b.fn, b.file))
+    ls = src.rfind('\n', 0, m.start()) + 1
+    # attribute lines directly above
+    while True:
+        pl = src.rfind('\n', 0, ls - 1) + 1
+        if ls > 0 and src[pl:ls].strip().startswith('#['):
+            ls = pl
+        else:
+            break
+    ob = rustlex.next_open_brace(masked, m.start())
+    cb = rustlex.match_close(masked, ob)
+    raw = src[ls:cb + 1]
+    text, fired = apply_rules(raw)
+    for old, new, cnt in b.substs:
+        c = text.count(old)
+        if cnt and c != cnt:
+            raise ExtractError('subst anchor in item %s occurs %d times (expected %d): %r' % (b.fn, c, cnt, old[:80]))
+        text = text.replace(old, new)
+    l0 = rustlex.line_of(src, ls)
+    meta = {'fn': 'item:' + b.fn, 'src_fn': b.fn, 'file': b.file, 'impl': None, 'src_lines': [l0, rustlex.line_of(src, cb)],
+            'lines_total': raw.count('\n') + 1, 'lines_verbatim': sum(1 for a in raw.split('\n') if a.strip() and a.strip() in [x.strip() for x in text.split('\n')]),
+            'rules_fired': fired, 'sha256_src': hashlib.sha256(raw.encode()).hexdigest(), 'sha256_extracted': hashlib.sha256(text.encode()).hexdigest(),
+            'line_map': {}, 'body_open_off': 0, 'stub': False, 'item': True}
+    return text, meta
+
+
+def strip_inner_items(text):
+    """R13: item statements (enum / impl / struct declared inside a fn body) are removed from the body; the unit provides them at
+    module level through //@extract-item (Verus has no internal item statements; items capture nothing)."""
+    n = 0
+    while True:
+        m2 = rustlex.mask(text)
+        mfn = re.search(r'\bfn\s+\w+', m2)
+        body_open = rustlex.next_open_brace(m2, mfn.start())
+        m = re.search(r'(?m)^[ \t]+((?:#\[[^\n]*\]\s*\n[ \t]*)*)(enum|impl|struct)\b[^;{]*\{', m2[body_open:])
+        if not m:
+            return text, n
+        start = body_open + m.start()
+        ob = body_open + m.end() - 1
+        cb = rustlex.match_close(m2, ob)
+        text = text[:start] + text[cb + 1:]
+        n += 1
+
+
 def extract_block(b: Block, snapshot: str):
+    if getattr(b, 'item', False):
+        return extract_item(b, snapshot)
     path = os.path.join(snapshot, b.file)
     if not os.path.exists(path):
         raise ExtractError('lost anchor: file %s' % b.file)
@@ -382,6 +464,10 @@ def extract_block(b: Block, snapshot: str):
     src_line0 = rustlex.line_of(src, loc['start'])
     src_line1 = rustlex.line_of(src, loc['body_close'])
     text, fired = apply_rules(raw, skip=b.noglobal)
+    if not b.stub:
+        text, nin = strip_inner_items(text)
+        if nin:
+            fired['R13'] = nin
     for old, new, cnt in b.substs:
         c = text.count(old)
         if cnt == 0:
@@ -540,7 +626,7 @@ def build_unit(template_path, units_dir, snapshot, canary=False):
                     metas.append({'skipped': True, 'fn': p.rename or p.fn, 'file': p.file, 'gen_lines': [0, -1], 'line_map': {}})
                     continue
                 raise
-            if canary:
+            if canary and not meta.get('item'):
                 ob = meta['body_open_off']
                 text = text[:ob + 1] + ' assert(false); ' + text[ob + 1:]
             g0 = len(out_lines) + 1
